@@ -77,6 +77,17 @@ def mutate(rnd, cfg, stats):
             stats.append("rule_string_case_changed")
             if rnd.random() < 0.7:
                 return c
+    if rnd.random() < 0.1:
+        # one string of one rule is edited in place to the empty string (an empty criterion is still a criterion:
+        # it admits only clients whose field is empty), or from the empty string to a value
+        cands = [(n, kk) for n in sorted(rules) for kk in ("class", "hostname", "username", "account", "xreply_ok")
+                 if isinstance(rules[n].get(kk), str)]
+        if cands:
+            n, kk = rnd.choice(cands)
+            rules[n][kk] = "" if rules[n][kk] != "" else rnd.choice(["*", "c9", "x*"])
+            stats.append("rule_string_blanked_in_place")
+            if rnd.random() < 0.7:
+                return c
     if rnd.random() < 0.12:
         # an edit that keeps the size of the file: two services exchange their protocols, two rules their classes
         done = False
